@@ -1,6 +1,7 @@
 package main
 
 import (
+	"go/token"
 	"fmt"
 	"go/types"
 	"sort"
@@ -158,7 +159,7 @@ func (fx *fexec) enterLoop(li *loopInfo, cur *State) *State {
 	}
 	// havoc
 	hs := cur.clone()
-	mod := fx.loopModifies(li)
+	mod := fx.loopModifies(li, cur)
 	var comps []string
 	for c := range mod.comps {
 		comps = append(comps, c)
@@ -276,6 +277,18 @@ type modSet struct {
 	fresh   map[string]bool   // component written at references allocated inside the loop
 	allocs  bool
 	varying func(ssa.Value) bool
+	// pending: writes through a slice/pointer that is itself loaded, inside the scanned
+	// region, from a field of a loop-invariant object; exact iff that field's component
+	// turns out not to be written in the region (decided after the scan)
+	pending []pendingTarget
+}
+
+type pendingTarget struct {
+	comp, srt         string
+	fieldComp, fieldS string
+	ptr               Term
+	refOf             func(Val) Term
+	ty                types.Type
 }
 
 func newModSet() *modSet {
@@ -283,7 +296,7 @@ func newModSet() *modSet {
 }
 
 // loopModifies over-approximates the heap components written in the loop body.
-func (fx *fexec) loopModifies(li *loopInfo) *modSet {
+func (fx *fexec) loopModifies(li *loopInfo, cur *State) *modSet {
 	ms := newModSet()
 	inBody := func(v ssa.Value) bool {
 		switch x := v.(type) {
@@ -296,6 +309,23 @@ func (fx *fexec) loopModifies(li *loopInfo) *modSet {
 	}
 	ms.varying = inBody
 	fx.scanModifies(fx.fn, func(b *ssa.BasicBlock) bool { return li.body[b] }, inBody, ms, 0)
+	for _, pt := range ms.pending {
+		if _, written := ms.comps[pt.fieldComp]; written || cur == nil {
+			ms.coarse[pt.comp] = true
+			continue
+		}
+		// the field is not written in the loop: its value at the loop entry is the
+		// value every iteration loads
+		fv := Val{Ty: pt.ty, T: sel(fx.vc.heapGet(cur, pt.fieldComp, pt.fieldS), pt.ptr)}
+		r := pt.refOf(fv)
+		dup := false
+		for _, t := range ms.targets[pt.comp] {
+			dup = dup || t.S == r.S
+		}
+		if !dup {
+			ms.targets[pt.comp] = append(ms.targets[pt.comp], r)
+		}
+	}
 	return ms
 }
 
@@ -306,6 +336,26 @@ func (fx *fexec) scanModifies(fn *ssa.Function, inScope func(*ssa.BasicBlock) bo
 		if a, isAlloc := base.(*ssa.Alloc); isAlloc && (inScope == nil || inScope(a.Block())) {
 			ms.fresh[comp] = true // a cell allocated inside the scanned region
 			return
+		}
+		if varying != nil && base != nil && varying(base) && depth == 0 {
+			// a load of a field of a loop-invariant object: decided after the scan
+			if ld, ok := base.(*ssa.UnOp); ok && ld.Op == token.MUL {
+				if fa, ok := ld.X.(*ssa.FieldAddr); ok && !varying(fa.X) {
+					pv, okv := fx.env[fa.X]
+					if !okv {
+						if p, isParam := fa.X.(*ssa.Parameter); isParam {
+							pv, okv = fx.params[p.Name()]
+						}
+					}
+					if okv && pv.T.S != "" && pv.Loc == nil {
+						if ppt, ok := vc.under(fa.X.Type()).(*types.Pointer); ok {
+							fc, fs := vc.fieldComp(ppt.Elem(), fa.Field)
+							ms.pending = append(ms.pending, pendingTarget{comp: comp, srt: srt, fieldComp: fc, fieldS: fs, ptr: pv.T, refOf: refOf, ty: vc.resolve(ld.Type())})
+							return
+						}
+					}
+				}
+			}
 		}
 		if varying == nil || base == nil || varying(base) {
 			ms.coarse[comp] = true
